@@ -123,7 +123,7 @@ def check(run, driver):
         G = rand_multigraph(rng)
         nodes = list(G.nodes()); idx = {n: i for i, n in enumerate(nodes)}
         iters = int(rng.choice([0, 1, 5, 50, 200, 400]))
-        seed = int(rng.integers(0, 1000))
+        seed = 0 if it % 5 == 0 else int(rng.integers(0, 1000))
         block = bool(rng.integers(0, 2))
         shim = RandShim()
         curs = []
@@ -135,6 +135,7 @@ def check(run, driver):
         G0 = copy.deepcopy(G)
         with patched(P, "random", shim), patched(P, "_objective", spy):
             res = P.optimize_circular_order(G, max_iters=iters, block_moves=block, rng=seed)
+        pyrandom.seed(int(rng.integers(0, 10**6))); pyrandom.random()      # unrelated activity on the global generator in between
         again = P.optimize_circular_order(G, max_iters=iters, block_moves=block, rng=seed)
         case = {"nodes": [repr(n) for n in nodes], "edges": [(idx[u], idx[v], d["lag"]) for u, v, d in G.edges(data=True)], "max_iters": iters, "block_moves": block, "seed": seed}
         seed_order = curs[0] if curs else list(res)
@@ -209,7 +210,7 @@ def check(run, driver):
         G = rand_multigraph(rng, mode=it % 7)
         nodes = list(G.nodes()); idx = {n: i for i, n in enumerate(nodes)}
         opts = dict(zip(bool_opts, combos[it % 32] if thorough else combos[int(rng.integers(0, 32))]))
-        seed = int(rng.integers(0, 50))
+        seed = 0 if it % 4 == 0 else int(rng.integers(0, 50))
         G0 = copy.deepcopy(G)
         before = (list(G.nodes(data=True)), [(u, v, k, dict(d)) for u, v, k, d in G.edges(keys=True, data=True)])
         drawn = []
@@ -236,6 +237,7 @@ def check(run, driver):
         if before != after or not nx.utils.graphs_equal(G, G0):
             run.prop_fail("drawing changed the graph's nodes, edges or attributes", case, {"clause": "graph_unchanged"})
         # drawn node positions = circular positions of the seeded layout
+        pyrandom.seed(int(rng.integers(0, 10**6)))
         order = P.optimize_circular_order(G, rng=seed)
         want = P._circular_positions(order, radius=1.0)
         try:
